@@ -578,7 +578,7 @@ func edgelessOperator(m *Model) bool {
 				if e == nil {
 					return
 				}
-				if (e.Kind == KInter || e.Kind == KExcl) && len(e.Children) > 0 {
+				if e.isOp() && len(e.Children) > 0 { // union too: `([] or []) or a` (met by the thorough tier)
 					all := true
 					for _, c := range e.Children {
 						if c.Kind != KThis {
